@@ -1,5 +1,5 @@
 //@ unit C09_loca
-//@ props C09 C15 C07
+//@ props C09 C15
 //@ module src/tables/glyf.rs
 //@ strength complete in the offset values (3 fully symbolic u32 offsets, both formats) for the loca writer/reader pair; the table length (numGlyphs = 2) is the bound
 //@ unverified GlyfTable::write_dep (the loca the glyf writer implies: a harness over 3 records of 3, 0 and 5 symbolic bytes did not finish in 15 min - Vec<GlyfRecord> drop glue; measured twice); head.indexToLocFormat selection in subset_ttf
